@@ -72,7 +72,8 @@ class Sched(Engine):
     def gen(self, rng, i, tier):
         arr = self.gen_array(rng)
         n = arr['rows']
-        ngen = rng.randint(1, self.maxgens)
+        deep = tier == 'thorough' and rng.random() < 0.5       # thorough tier: longer schedules, a fourth generator
+        ngen = rng.randint(1, self.maxgens + (1 if deep else 0))
         gens = [self.gen_genparams(rng, n) for _ in range(ngen)]
         acts = []
         # swarm: per-run action weights
@@ -84,7 +85,7 @@ class Sched(Engine):
         if not (w['start'] or w['enter']):
             w['start'] = 4
         names = [k for k in w if w[k]]
-        for _ in range(rng.randint(3, 14)):
+        for _ in range(rng.randint(3, 24 if deep else 14)):
             a = rng.choices(names, [w[x] for x in names])[0]
             if a in ('start', 'advance', 'close', 'abandon'):
                 acts.append({'act': a, 'g': rng.randrange(ngen)})
